@@ -132,9 +132,15 @@ def run(ctx):
     # ---- the sorter
     lists = []
     nl = 300 if ctx.quick() else 5000
+    # events of 100 km and more next to shorter ones (the five-digit field of the text key overflows there: the sorter
+    # must go by the tuple key)
+    LONG = [c for c in ['100000', '20000', '99999', '120000', '25000', '100K', '50K', '150K', '30K', '4x100K', '4x50K', '4x25K', '100M', '50M', '200K', '1000000', '3000', '4x400']
+            if codes.PAT_EVENT_CODE.match(c)]
     for _ in range(nl):
         l = [rng.choice(base) for _ in range(rng.randint(0, 9))]
         if l and rng.random() < 0.5: l += [rng.choice(l)]
+        if rng.random() < 0.3:
+            l += rng.sample(LONG, min(len(LONG), rng.randint(2, 5))); rng.shuffle(l)
         lists.append(l)
     sreq = []; sexp = []
     for l in lists:
